@@ -23,6 +23,14 @@ use super::exp_parser::parse_exp;
 use crate::runtime_builtin::FunctionCall;
 use crate::{bail_missing_token, err_unexpected_token};
 
+/// The pair carrying `tag` among the given pairs themselves. `Pairs::find_first_tagged` also
+/// searches their descendants in document order, so a tag of an outer rule that comes after a
+/// sub-expression is shadowed by the same tag inside that sub-expression (the `body` of a block
+/// used in an iterator, the `to` of a range nested in a range start).
+fn find_direct_tagged<'a>(pairs: &Pairs<'a, Rule>, tag: &str) -> Option<Pair<'a, Rule>> {
+    pairs.clone().find(|pair| pair.as_node_tag() == Some(tag))
+}
+
 pub fn parse_objective(objective: Pair<Rule>) -> Result<PreObjective, CompilationError> {
     match objective.as_rule() {
         Rule::objective => {
@@ -461,9 +469,9 @@ pub fn parse_set_iterator_list(
 pub fn parse_block_scoped_function(exp: &Pair<Rule>) -> Result<PreExp, CompilationError> {
     let span = InputSpan::from_pair(exp);
     let inner = exp.clone().into_inner();
-    let name = inner.find_first_tagged("name");
-    let body = inner.find_first_tagged("body");
-    let iters = inner.find_first_tagged("range");
+    let name = find_direct_tagged(&inner, "name");
+    let body = find_direct_tagged(&inner, "body");
+    let iters = find_direct_tagged(&inner, "range");
     if name.is_none() || iters.is_none() || body.is_none() {
         return err_unexpected_token!("found {}, expected scoped block function", exp);
     }
@@ -714,10 +722,19 @@ pub fn parse_iterator(iterator: &Pair<Rule>) -> Result<PreExp, CompilationError>
             let first: Option<Rule> = inner.next().map(|i| i.as_rule());
             match first {
                 Some(Rule::range_iterator) => {
-                    let inner = iterator.clone().into_inner();
-                    let from = inner.find_first_tagged("from").map(parse_parameter);
-                    let to = inner.find_first_tagged("to").map(parse_parameter);
-                    let range_type = inner.find_first_tagged("range_type");
+                    // the parts of this range, not those of a range nested in its start
+                    let inner = match iterator.clone().into_inner().next() {
+                        Some(range) => range.into_inner(),
+                        None => {
+                            return err_unexpected_token!(
+                                "Expected range iterator but got: {}",
+                                iterator
+                            );
+                        }
+                    };
+                    let from = find_direct_tagged(&inner, "from").map(parse_parameter);
+                    let to = find_direct_tagged(&inner, "to").map(parse_parameter);
+                    let range_type = find_direct_tagged(&inner, "range_type");
                     match (from, to, range_type) {
                         (Some(from), Some(to), Some(range_type)) => {
                             let to_inclusive = match range_type.as_str() {
